@@ -65,7 +65,7 @@ func init() {
 		Pkg: "verif/harness/c02",
 		Runs: []RunDef{c02("H_for_nested"), c02("H_while_nested"), c02("H_foreach"), c02("H_switch_in_for"), c02("H_func_defaults"), c02("H_static_counter"),
 			c02("H_locals_isolated"), c02("H_if_chain"), c02("H_match"), c02("H_counter_escapes"), c02("H_return_from_loop"), c02("H_repeated_statements"),
-			c02("H_loop_body_exits"), {Fn: "H_static_forms", Fuel: 30_000_000, Tier: "quick", Reach: []string{"end"}}, c02("H_static_recursion"), c02("H_switch_labels"), c02("H_foreach_object_write"), c02("H_for_forms"), c02("H_no_return")},
+			c02("H_loop_body_exits"), {Fn: "H_static_forms", Fuel: 30_000_000, Tier: "quick", Reach: []string{"end"}}, c02("H_static_recursion"), c02("H_switch_labels"), c02("H_foreach_object_write"), c02("H_for_forms"), c02("H_no_return"), c02("H_foreach_body_writes"), c02("H_foreach_nested_same")},
 		Rule:        rule + "; each template is parsed by the real parser on every path and run by the real evaluators with symbolic loop limits/trigger indexes in [-1,3] (unbounded ints where no loop depends on them); exit statement kind and level are enumerated by solver-driven case split; the oracle is the same algorithm in Go executed in the same path; H_loop_body_exits puts break/continue under an if in the middle of the body of every loop kind; H_static_forms: 6 update forms x 3 ways of leaving the function x 3 placements of the static declaration; H_static_recursion: frames of a recursive function share the static; H_switch_labels: duplicate / expression labels and default in every position; H_foreach_object_write: a foreach over an object whose body writes that object terminates and enumerates the entries present at its start",
 		Assumptions: []string{"switch fall-through into the next case and a bare 'continue' directly inside switch are not asserted (docs are silent / PHP-specific)"},
 		Outside:     []string{"programs outside the 16 templates (H_switch_labels: three cases with labels drawn from {1,2,3} with repetition, default clause in every position, literal and expression labels, symbolic subject)", "loop counts > 3, nesting depth > 2", "generators, goto, strings in conditions"},
